@@ -910,6 +910,71 @@ names only well-formed, window-independent targets statically) -/
 def inHW (T : List Name) (files : Files) : Bool :=
   files.all fun d => d.all fun e => fileOkW T files e.2
 
+/-! ### the hypothesis of `runtime = specification` for file sets with match templates
+
+The specification renders every include in place, under the window of match templates in force; a run-time
+include — statically named or expression-valued — restarts the window.  So inside a zone every include must be
+of window-independent content, and "window-independent" must exclude expression-valued includes of markup
+(`spec_restart_witness`). -/
+
+mutual
+/-- window-independent also for the specification: as `winfreeN`, and every include — an expression-valued one
+too — is of a text template (text templates are textual: no elements, no macro calls) -/
+def winfreeSN (T : List Name) : Node → Bool
+  | .text _ | .var _ | .defn _ _ | .matchT _ _ => true
+  | .call _ | .select => false
+  | .elem t b => !decide (t ∈ T) && winfreeSL T b
+  | .cond _ b | .loop _ _ b | .inlined b => winfreeSL T b
+  | .include _ cls _ fb _ => decide (cls = .text) && winfreeSL T fb
+termination_by structural n => n
+def winfreeSL (T : List Name) : List Node → Bool
+  | [] => true
+  | n :: ns => winfreeSN T n && winfreeSL T ns
+termination_by structural l => l
+end
+
+/-- a statically named include inside a zone: the target — or the fallback of a missing target — is
+window-independent (an ill-formed target raises the syntax error either way) -/
+def zoneTargetOkS (files : Files) (T : List Name) (pos h : List Char) (hasFb : Bool) (fb : List Node) : Bool :=
+  match resolve pos h with
+  | none => true            -- outside the model in both evaluators
+  | some name =>
+    match files.find name with
+    | none => !hasFb || winfreeSL T fb
+    | some f => match f.body with
+      | none => true
+      | some b => winfreeSL T b
+
+mutual
+/-- `zoneFreeN` for the specification: inside a zone no macro call, a statically named include only of
+window-independent content, an expression-valued include only of a text template with a window-independent
+fallback -/
+def zoneFreeSN (files : Files) (T : List Name) (zone : Bool) : Node → Bool
+  | .text _ | .var _ | .select => true
+  | .call _ => !zone
+  | .elem t b => zoneFreeSL files T (zone || decide (t ∈ T)) b
+  | .cond _ b | .loop _ _ b | .inlined b => zoneFreeSL files T zone b
+  | .defn _ b => zoneFreeSL files T false b
+  | .matchT _ b => zoneFreeSL files T true b
+  | .include (.static h) _ hasFb fb pos => (!zone || zoneTargetOkS files T pos h hasFb fb) && zoneFreeSL files T false fb
+  | .include (.dyn _) cls _ fb _ => (!zone || (decide (cls = .text) && winfreeSL T fb)) && zoneFreeSL files T false fb
+termination_by structural n => n
+def zoneFreeSL (files : Files) (T : List Name) (zone : Bool) : List Node → Bool
+  | [] => true
+  | n :: ns => zoneFreeSN files T zone n && zoneFreeSL files T zone ns
+termination_by structural l => l
+end
+
+def fileOkS (T : List Name) (files : Files) (f : File) : Bool :=
+  match f.body with
+  | none => true            -- both evaluators raise the syntax error when it is loaded
+  | some b => tagsOkL T b && zoneFreeSL files T false b &&
+      (match f.kind with | .text => textualL b | .markup => true)
+
+/-- the hypothesis of `runtime_eq_spec_zones_partial` -/
+def inHS (T : List Name) (files : Files) : Bool :=
+  files.all fun d => d.all fun e => fileOkS T files e.2
+
 mutual
 def matchTagsN : Node → List Name
   | .text _ | .var _ | .call _ | .select => []
